@@ -60,6 +60,10 @@ C4Raise  == {"HTTPError", "HTTPNotFound", "HTTPStatus", "StSub", "AppA", "AppB",
              "BadStr", "NonStr", "BadRepr"}    \* the last three cannot be formatted (str() / repr() of them raises)
 C4Render == {"AppA", "AppD", "AppX", "HTTPNotFound"}
 None == {}
+(* mixin instances (C04): handlers for a mixin / a secondary base only; raised from every site *)
+MRegClasses == {"Retryable", "ServiceError", "AppA", "Exception"}
+MRaise      == {"Overloaded", "MixFirst", "HTTPMix"}
+MRender     == {"Overloaded", "MixFirst"}
 (* wrong-design runs (vacuity control): a tiny instance in which every named wrong design is reachable *)
 WRegs  == {<< R("AppB", "set"), R("AppB", "http"), R("AppD", "setbad"), R("StSub", "noop"), R("HTTPError", "draftst") >>}
 WRaise == {"AppB", "AppD", "StSub", "HTTPError"}
